@@ -114,3 +114,65 @@ pub fn c11(o: &Opts) -> Outcome {
     }
     Outcome { cases, witness: None }
 }
+
+/// C12: k-mer CGR rows through the public file API
+fn c12_batch(recs: &[Vec<u8>], k: usize, size: usize, norm: bool, threads: usize) -> Option<Vec<(String, String)>> {
+    let sc = Scratch::new("ocgr");
+    let inp = sc.path("in.fa");
+    let out = sc.path("out.txt");
+    write_fasta(&inp, recs);
+    let (i2, o2) = (inp.clone(), out.clone());
+    let r = guarded(move || {
+        let mut c = composition::oligocgr::OligoCgrComputer::new(i2, o2, k, size);
+        c.set_threads(threads);
+        c.set_norm(norm);
+        c.vectorise()
+    });
+    let cols: Vec<u64> = (0..pow4(k)).filter(|&x| is_canon(x, k)).collect();
+    let mut which = 0;
+    let why = match r {
+        Err(e) => format!("panic: {}", e),
+        Ok(Err(e)) => format!("error: {}", e),
+        Ok(Ok(())) => {
+            let text = std::fs::read_to_string(&out).unwrap_or_default();
+            let lines: Vec<&str> = text.split('\n').collect();
+            let mut w = String::new();
+            if lines.len() != recs.len() + 1 { w = format!("{} rows for {} records", lines.len() - 1, recs.len()); }
+            else {
+                'outer: for (i, rec) in recs.iter().enumerate() {
+                    let (cnt, total) = crate::p_rows::counts_spec(rec, k);
+                    let parts: Vec<&str> = lines[i].split(' ').collect();
+                    if parts.len() != cols.len() { which = i; w = format!("row {} has {} triples, expected {}", i, parts.len(), cols.len()); break; }
+                    for (j, p) in parts.iter().enumerate() {
+                        let t: Vec<f64> = p.trim_matches(|c| c == '(' || c == ')').split(',').map(|x| x.parse().unwrap_or(f64::NAN)).collect();
+                        let end = *cgr_spec(text_of(cols[j], k).as_bytes(), size as f64).unwrap().last().unwrap();
+                        let f = if norm { cnt[j] as f64 / total.max(1) as f64 } else { cnt[j] as f64 };
+                        if t.len() != 3 || t[0] != end.0 || t[1] != end.1 || t[2] != f { which = i; w = format!("row {} column {}: got {:?}, expected ({},{},{})", i, j, t, end.0, end.1, f); break 'outer; }
+                    }
+                }
+            }
+            w
+        }
+    };
+    if why.is_empty() { None } else {
+        Some(vec![("seq".into(), show(&recs[which])), ("k".into(), k.to_string()), ("size".into(), size.to_string()), ("norm".into(), norm.to_string()), ("threads".into(), threads.to_string()), ("why".into(), why)])
+    }
+}
+
+pub fn c12(o: &Opts) -> Outcome {
+    let mut cases = 0u64;
+    if let Some(inp) = &o.input {
+        return Outcome { cases: 1, witness: c12_batch(&[unshow(&inp["seq"])], inp["k"].parse().unwrap(), inp["size"].parse().unwrap(), inp["norm"] == "true", inp["threads"].parse().unwrap()) };
+    }
+    let mut rng = Rng(o.seed.wrapping_mul(0x9E3779B97F4A7C15) | 1);
+    for k in 1..=(if o.thorough { 6 } else { 4 }) {
+        for size in [1usize, 8, 1000, 1 << 20] {
+            let recs: Vec<Vec<u8>> = (0..20).map(|_| { let l = 1 + rng.below(150) as usize; random_seq(&mut rng, l, 10).iter().map(|&b| if b < 0x21 || b > 0x7e || b == b'>' { b'N' } else { b }).collect() }).collect();
+            for norm in [true, false] {
+                cases += recs.len() as u64;
+                if let Some(w) = c12_batch(&recs, k, size, norm, 3) { return Outcome { cases, witness: Some(w) }; }
+            }
+        }
+    }
+    Outcome { cases, witness: None }
+}
